@@ -421,7 +421,9 @@ func invcdfReplay(in io.Reader, raw bool, args []string) (*Summary, error) {
 		const N = 40000
 		band := math.Sqrt(math.Log(2e9) / (2 * N))
 		for _, d := range []stats.DistCommon{stats.UDist{N1: 3, N2: 4}, stats.UDist{N1: 5, N2: 5}, stats.UDist{N1: 2, N2: 9}, stats.UDist{N1: 4, N2: 3, T: []int{2, 1, 3, 1}},
-			stats.BinomialDist{N: 10, P: 0.3}, stats.BinomialDist{N: 3, P: 0.5}, stats.HypergeometicDist{N: 20, K: 7, Draws: 5}} {
+			stats.BinomialDist{N: 10, P: 0.3}, stats.BinomialDist{N: 3, P: 0.5}, stats.HypergeometicDist{N: 20, K: 7, Draws: 5},
+			// many trials with a small success probability: strongly skewed (a symmetric approximation is visibly off)
+			stats.BinomialDist{N: 2000, P: 0.004}, stats.BinomialDist{N: 1001, P: 0.01}, stats.BinomialDist{N: 6000, P: 0.0008}} {
 			gen := stats.Rand(d)
 			rr := rand.New(rand.NewSource(baseSeed + 177))
 			xs := make([]float64, N)
